@@ -6,6 +6,7 @@ import os
 
 from hypothesis import strategies as st
 
+from vf import pins
 from vf.core import HarnessError, HypPart, Oracle, VERIF_DIR
 from vf.ref import flashenc as F
 
@@ -798,6 +799,7 @@ def calibrate(ctx) -> None:
     need(F.bee_decrypt(engs, 0x60001000, enc) == pl and enc[:0x2000] != pl[:0x2000], "BEE image decrypt")
 
 
+
 def parts(ctx):
     work = ctx.work
     big = 16384 if ctx.quick else 262144
@@ -811,4 +813,5 @@ def parts(ctx):
         HypPart("iee", sized(_iee_case, big), run_iee, {"quick": 1200, "thorough": 80000}),
         HypPart("iee_cfg", sized(_iee_cfg_case, 8192 if ctx.quick else 65536), lambda c, o: run_iee_cfg(c, o, work), {"quick": 300, "thorough": 20000}),
         HypPart("bee", sized(_bee_case, big), lambda c, o: run_bee(c, o, work), {"quick": 1200, "thorough": 80000}),
+        pins.part(["otfad", "iee"], 50),  # key-blob byte order, record sizes, scramble-key orientation: what the silicon does
     ]
